@@ -3,13 +3,12 @@
 #include <kernel/runtime.hpp>
 namespace c16
 {
-  void reg_bilin_q2(std::vector<vf::Target>&); void reg_bilin_t2(std::vector<vf::Target>&);
-  void reg_bilin_q3(std::vector<vf::Target>&); void reg_bilin_t3(std::vector<vf::Target>&);
+  void reg_bilin(std::vector<vf::Target>&);
 }
 int main(int argc, char** argv)
 {
   FEAT::Runtime::ScopeGuard guard(argc, argv);
   std::vector<vf::Target> tg;
-  c16::reg_bilin_q2(tg); c16::reg_bilin_t2(tg); c16::reg_bilin_q3(tg); c16::reg_bilin_t3(tg);
+  c16::reg_bilin(tg);
   return vf::main_impl(argc, argv, tg);
 }
